@@ -4,8 +4,11 @@ Tie: T (every hook implementation registered on a hook of one of the groups is r
 lean/PyrollModel/Gen/C16.lean - guards, formulas, host class, tier, source order - and the theorems of
 lean/PyrollProps/C16.lean are kernel-evaluated / proved against these tables) + K (the symbolic hook interpreter
 lean/PyrollModel/Mutual.lean is run by the driver lean/Drivers/c16.lean on exactly the cases the real objects are put
-through: every subset of supplied members x every read order x scenario; values, AttributeError / other exceptions and
-the names left in `__cache__` are compared).  The independent oracle checks the property text on the real objects.
+through: every subset of supplied members x every read order x scenario; values, AttributeError / other exceptions, the
+names left in `__cache__`, the re-entrancy marks left behind and the NUMBER of hook function invocations per read are
+compared).  The independent oracle checks the property text on the real objects: order independence, defining
+relations, supplied values read back, derivable <=> readable (closure of the documented directions), failures are
+AttributeError, fast, and without an internal RecursionError (Hook.__get__ is watched while the harness runs), round trips.
 """
 import itertools
 import math
@@ -822,7 +825,7 @@ def _linked_instances(ctx):
         for m in order:
             r = _read(a, m)
             if r[0] != "V" or not _close(r[1], exp[m]):
-                ctx.violation("rollvel:instances-interfere", f"roll a (surface velocity taken from roll b): {m} reads "
+                ctx.violation("rollvel:linked-instances", f"roll a (surface velocity taken from roll b): {m} reads "
                               f"{r[1] if r[0] == 'V' else r[3]}, expected {exp[m]}", rp)
                 break
 
@@ -843,7 +846,7 @@ def run(ctx):
     if ctx.model_available and lines:
         _compare(ctx, lines, pending)
     # the driver reports the first few distinct keys: put one key per kind of failure first
-    prio = ["wrong-error", "instances-interfere", "slow-failure", "invented", "supplied-changed", "marks-left", "inconsistent",
+    prio = ["wrong-error", "linked-instances", "slow-failure", "invented", "supplied-changed", "marks-left", "inconsistent",
             "order-dependent", "roundtrip", "underivable"]
     ctx.violations.sort(key=lambda v: prio.index(v[0].split(":")[-1]) if v[0].split(":")[-1] in prio else 99)
 
